@@ -513,8 +513,10 @@ func TimeoutWithCodeHandler(h RequestHandler, timeout time.Duration, msg string,
 		}
 		go func() {
 			h(ctx)
-			ch <- struct{}{}
+			// Release the slot before signaling completion, otherwise the next
+			// request on the connection may still see it taken and get 429.
 			<-concurrencyCh
+			ch <- struct{}{}
 		}()
 		ctx.timeoutTimer = initTimer(ctx.timeoutTimer, timeout)
 		select {
